@@ -243,12 +243,13 @@ func makeField(v reflect.Value, params fieldParameters) (encoder, error) {
 			} else if structType.Field(0).Name == "Present" {
 				// Open type or CHOICE type
 				present := int(v.Field(0).Int())
-				tempParams := parseFieldParameters(structType.Field(present).Tag.Get("ber"))
-				if present == 0 {
-					return nil, fmt.Errorf("CHOICE or OpenType present is 0(present's field number)")
+				if present <= 0 {
+					return nil, fmt.Errorf("CHOICE or OpenType present is %d, not a field number of an alternative", present)
 				} else if present >= structType.NumField() {
 					return nil, fmt.Errorf("Present is bigger than number of struct field")
-				} else if params.openType {
+				}
+				tempParams := parseFieldParameters(structType.Field(present).Tag.Get("ber"))
+				if params.openType {
 					// TODO openType
 					return nil, fmt.Errorf("Open Type is not implemented")
 				} else {
